@@ -69,8 +69,15 @@ CHECKS = {
     'C12': ('Lean 4 theorems (C04 comparison rule, C11 test plan) + model/implementation correspondence (partial: detection of each change is runtime, decided by the oracle)',
             'Kernel-checked theorems: every stream asked for and every reference file has a test of its own under a name no '
             'other test has; each such test is a check_strings comparison that passes exactly when the stated rule holds, so a '
-            'changed line that no generated exclusion excuses, or an added / removed line, makes it fail. The plan is tied to '
-            'the def test_ lines of really generated scripts. PARTIAL: which lines the generator excuses, binary comparison, '
+            'changed line that no generated exclusion excuses, or an added / removed line, makes it fail. Which lines the '
+            'generator excuses for a repeatable command is modelled too (check_for_specific_references / '
+            'update_exclusions_with_specifics; the date detectors\' answers are inputs): every generated ignore-substring is a '
+            'machine-specific string that some line holds or a date found in a line with a date within a day of the run, a '
+            'single run generates none, dates outside the window exclude nothing, and a changed line that holds none of the '
+            'ignore-substrings makes the generated comparison fail (changed_unexcluded_line_fails, through C04). The constants and '
+            'the shape of the rule are regenerated from gentest.py on every run and tied (tie_exclusion_rule). The plan is tied to '
+            'the def test_ lines of really generated scripts, the exclusion rule to the real functions run on a bare generator '
+            'object. PARTIAL: the regular expressions of the date detectors, binary comparison, '
             'deleted files and exit status are runtime: the oracle generates a script as a real process, then changes the '
             'command\'s behaviour one output at a time (a character, a line added or removed, a byte, a file no longer produced, '
             'another exit status), re-runs the script as a real process and demands that the test of that stream / file / status '
